@@ -95,3 +95,30 @@ def who_references(rep, callee_re, ident, subdir="libs/pika"):
                 f.write(body)
         out.append(facts(rep, drv, [], calls=[callee_re]))
     return out, cpps, hdrs
+
+
+def import_rules(rep, tier, module, wanted, new_id, text):
+    """Evaluate another property's rule module and adopt the instances of the rules in `wanted` under
+    the id `new_id` of this property (the construct belongs to both properties' mechanisms)."""
+    import importlib
+    from engine.core import Report
+    mod = importlib.import_module("rules." + module)
+    sub = Report(module)
+    mod.run(sub, tier)
+    rep.rule(new_id, text)
+    n = sum(sub.instances.get(w, 0) for w in wanted)
+    bad = [v for v in sub.violations if v.rule in wanted]
+    rep.obligations += n
+    rep.discharged += n - len(bad)
+    rep.instances[new_id] += n
+    rep.tus |= sub.tus
+    rep.functions |= sub.functions
+    for s_ in sub.samples:
+        if s_.get("rule") in wanted:
+            rep.samples.append(dict(s_, rule=new_id, established="[%s] %s" % (s_["rule"], s_["established"])))
+    for v in bad:
+        v.msg = "[%s] %s" % (v.rule, v.msg)
+        v.rule = new_id
+        if not any(o.ident() == v.ident() for o in rep.violations):
+            rep.violations.append(v)
+    return n
